@@ -455,6 +455,8 @@ class ValueOps:
             for x, y in ((a, b), (b, a)):
                 if x.kind == 'val':
                     if 'any' in x.ty:
+                        if self.spec_mode:
+                            return mk_eq(self.box(a), self.box(b))      # `==` in specifications is structural
                         raise Unsupported('== on any')
                     ks = {atom_kind(t) for t in x.ty}
                     if ks & {'list', 'tuple', 'dict'}:
@@ -545,6 +547,10 @@ class ValueOps:
             n = len(sv.elems)
             if check:
                 st.oblige(mk_and(mk_le('0', idx.term), mk_lt(idx.term, int_lit(n))), 'index in range', lineno)
+            if n == 0:
+                if check:
+                    raise PathInfeasible()
+                return SV('val', st.decls.const('undef', 'Val'), ANY)      # total selectors in specifications
             kinds = {e.kind for e in sv.elems}
             if len(kinds) == 1 and kinds <= {'int', 'str', 'bool'}:
                 t = sv.elems[-1].term
